@@ -210,7 +210,7 @@ impl Prop for C05 {
     fn gen_ops(&mut self, rng: &mut Rng, tier: Tier, out: &mut Emitter) {
         // (width, rows with the heavy mutation set, rows with the light set)
         let plan: Vec<(usize, usize, usize)> = if tier == Tier::Thorough {
-            vec![(2, 12, 0), (4, 16, 0), (8, 16, 0), (16, 12, 4), (32, 8, 4), (64, 4, 4), (128, 2, 2), (256, 1, 2)]
+            vec![(2, 2, 0), (4, 4, 0), (8, 8, 0), (16, 16, 0), (32, 32, 0), (64, 24, 16), (128, 8, 16), (256, 2, 8)]
         } else {
             vec![(2, 2, 0), (4, 4, 0), (8, 8, 0), (16, 8, 0), (32, 4, 0), (64, 2, 1), (128, 0, 2), (256, 0, 1)]
         };
